@@ -82,7 +82,7 @@ static string csvOf(const Config& c) {
   string s = "#\n";
   for (const MsgDef& m : c.msgs) {
     if (m.scan()) continue;
-    s += string(m.part == 'u' ? "uw" : "r") + ",c," + m.name + ",,,08," + m.idHex.substr(0, 4) + "," + m.idHex.substr(4);
+    s += string(m.part == 'u' ? "uw" : "r") + ",c," + m.name + ",,," + (m.noDst ? "" : "08") + "," + m.idHex.substr(0, 4) + "," + m.idHex.substr(4);
     for (const FieldDef& f : m.fields) s += "," + f.name + "," + (m.part == 's' ? "" : "m") + "," + typeOf(f.kind) + ",,,";
     s += "\n";
   }
@@ -91,7 +91,8 @@ static string csvOf(const Config& c) {
     if (!defined.insert(p.defName).second) return;
     const string values = p.derived ? p.baseValueText : p.valueText;
     if (p.msg >= 0 && c.msgs[static_cast<size_t>(p.msg)].scan()) s += "*[" + p.defName + "],,,," + p.fieldRef + ",08," + values + "\n";
-    else s += "*[" + p.defName + "],c," + (p.msg < 0 ? string("nomsg") : c.msgs[static_cast<size_t>(p.msg)].name) + ",," + p.fieldRef + ",," + values + "\n";
+    else s += "*[" + p.defName + "],c," + (p.msg < 0 ? string("nomsg") : c.msgs[static_cast<size_t>(p.msg)].name) + ",," + p.fieldRef + "," +
+              (p.msg >= 0 && c.msgs[static_cast<size_t>(p.msg)].noDst ? "08" : "") + "," + values + "\n";
   };
   for (const Part& p : c.parts) define(p);
   if (c.alt) define(c.altPart);
@@ -177,10 +178,22 @@ struct World {
     mm->findAll("c", "g", "*", true, true, false, false, true, false, 0, 0, false, &gs);
     if (!gs.empty()) g = gs[0];
     if (gs.size() > 1) gAlt = gs[1];
-    for (const MsgDef& m : c.msgs) {
-      if (m.scan()) ref.push_back(mm->getScanMessage(0x08));
-      else ref.push_back(m.part == 'u' ? mm->find("c", m.name, "", false, true) : mm->find("c", m.name, "", false));
+    for (size_t i = 0; i < c.msgs.size(); i++) {
+      const MsgDef& m = c.msgs[i];
+      if (m.scan()) { ref.push_back(mm->getScanMessage(0x08)); continue; }
+      // the message that receives a telegram of this kind, found the way BusHandler finds it
+      ebusd::MasterSymbolString master;
+      master.parseHex(masterHex(m, c.values[i][0]));
+      Message* r = locate(master);
+      if (!r) r = m.part == 'u' ? mm->find("c", m.name, "", false, true) : mm->find("c", m.name, "", false);
+      ref.push_back(r);
     }
+  }
+  // BusHandler::notifyProtocolMessage: find(command), then with any destination
+  Message* locate(const ebusd::MasterSymbolString& master) {
+    Message* r = mm->find(master);
+    if (!r) r = mm->find(master, true);
+    return r;
   }
   bool store(const Config& c, int msg, int vec) {
     const MsgDef& m = c.msgs[static_cast<size_t>(msg)];
@@ -188,7 +201,7 @@ struct World {
     ebusd::SlaveSymbolString slave;
     if (master.parseHex(masterHex(m, c.values[static_cast<size_t>(msg)][static_cast<size_t>(vec)])) != RESULT_OK) return false;
     if (slave.parseHex(slaveHex(m, c.values[static_cast<size_t>(msg)][static_cast<size_t>(vec)])) != RESULT_OK) return false;
-    Message* r = ref[static_cast<size_t>(msg)];
+    Message* r = m.scan() ? ref[static_cast<size_t>(msg)] : locate(master);
     if (!r) return false;
     return r->storeLastData(master, slave) == RESULT_OK;
   }
